@@ -26,6 +26,7 @@ mutual
     | .dotMissing, _ => rfl
     | .dotSyn, _ => rfl
     | .dotIoErr, _ => rfl
+    | .execFail _, _ => rfl
     | .command inner, s => by
       simp only [execBody]
       have := execBody_stack fuel inner (s.push (.builtin false))
@@ -261,6 +262,15 @@ theorem balN_n (fuel : Nat) (ih : BalN fuel) : ∀ s c, (execN (fuel+1) s c).1.s
   | async body =>
     simp only [execN]
     split <;> rfl
+  | forPos body =>
+    simp only [execN]
+    split
+    · rfl
+    · simp [St.pop, ih.for_, St.push]
+  | polled c =>
+    simp only [execN]
+    rw [pollWith_stack (execList fuel) (bal fuel).list]
+    exact ih.n s c
 
 theorem balN : ∀ fuel, BalN fuel
   | 0 => ⟨fun _ _ => rfl, fun _ _ _ _ _ => rfl, fun _ _ _ => rfl, fun _ _ _ => rfl, fun _ _ _ _ => rfl⟩
